@@ -243,7 +243,42 @@ func ruleSemantic(c *Ctx) {
 			cacheUse := findCalls(f, isCacheMethod)
 			c.check(len(cacheUse) == 0, "T12", fname, "range requests neither read nor write the token cache", f.Pos(),
 				"no token-cache access in the range handler", "the range handler touches the token cache: a range response can be served from stale tokens, or overwrite the data a later delta is computed against")
-			filt := sliceHasCall(encSlice, func(cal *ssa.Function, _ *ssa.Call) bool { return strings.Contains(strings.ToLower(cal.Name()), "filter") })
+			// the encoded list is built by appending tokens under a condition that compares the token's own
+			// position with the requested range (wherever that loop lives: in the handler or in a helper)
+			filt := false
+			for v := range encSlice {
+				call, ok := v.(*ssa.Call)
+				if !ok {
+					continue
+				}
+				if bi, ok := call.Call.Value.(*ssa.Builtin); !ok || bi.Name() != "append" {
+					continue
+				}
+				for _, cond := range controlConds(call.Block()) {
+					readsTok, readsRange := false, false
+					for w := range backSlice(cond) {
+						var bt types.Type
+						switch x := w.(type) {
+						case *ssa.Field:
+							bt = x.X.Type()
+						case *ssa.FieldAddr:
+							bt = x.X.Type().Underlying().(*types.Pointer).Elem()
+						}
+						if bt == nil {
+							continue
+						}
+						if typeHasSuffix(bt, "internal/server.semanticToken") {
+							readsTok = true
+						}
+						if typeHasSuffix(bt, "protocol.Range") || typeHasSuffix(bt, "protocol.Position") {
+							readsRange = true
+						}
+					}
+					if readsTok && readsRange {
+						filt = true
+					}
+				}
+			}
 			c.check(filt, "T12", fname, "range = full result restricted by the line filter", enc.Pos(), "the tokenizer's output passes the range filter before encoding", "range tokens are not obtained by filtering the full token list")
 		}
 		// Data fields of returned SemanticTokens = the encoder result
@@ -281,38 +316,162 @@ func ruleSemantic(c *Ctx) {
 			}
 		}
 		if kind == "delta" {
-			edits := findCalls(f, func(cal *ssa.Function) bool {
-				return cal.Signature.Results().Len() == 1 && typeHasSuffix(cal.Signature.Results().At(0).Type(), "protocol.SemanticTokensEdit")
-			})
-			c.check(len(edits) == 1, "T12", fname, "delta: one edit computation", f.Pos(), "edits computed once", fmt.Sprintf("%d edit computations", len(edits)))
-			for _, ed := range edits {
-				a := ed.Common().Args
-				oldOK := false
-				for v := range backSlice(a[0]) {
-					if fieldAddrNamed(v, "data") {
-						oldOK = true
+			// the edits: every SemanticTokensEdit built by the handler or by a module function it calls (values that
+			// are parameters of such a function are replaced by the arguments of the call)
+			type editC struct {
+				vals map[string]ssa.Value
+				blks []*ssa.BasicBlock
+				pos  token.Pos
+			}
+			var ecs []editC
+			collect := func(g *ssa.Function, site *ssa.Call) {
+				for _, b := range g.Blocks {
+					for _, ins := range b.Instrs {
+						var root ssa.Value
+						switch x := ins.(type) {
+						case *ssa.Alloc:
+							if typeHasSuffix(x.Type(), "*go.lsp.dev/protocol.SemanticTokensEdit") {
+								root = x
+							}
+						case *ssa.IndexAddr:
+							if typeHasSuffix(x.Type(), "*go.lsp.dev/protocol.SemanticTokensEdit") {
+								if _, local := x.X.(*ssa.Alloc); local {
+									root = x
+								}
+							}
+						}
+						if root == nil {
+							continue
+						}
+						st := map[string][]ssa.Value{}
+						collectFieldStores(root, "", st, 0)
+						if len(st[".Data"]) != 1 || len(st[".DeleteCount"]) != 1 {
+							continue
+						}
+						vals := map[string]ssa.Value{".Data": st[".Data"][0], ".DeleteCount": st[".DeleteCount"][0]}
+						if len(st[".Start"]) == 1 {
+							vals[".Start"] = st[".Start"][0]
+						}
+						blks := []*ssa.BasicBlock{b}
+						if site != nil {
+							blks = append(blks, site.Block())
+						}
+						ecs = append(ecs, editC{vals, blks, root.Pos()})
 					}
 				}
-				c.check(oldOK && a[1] == ssa.Value(enc), "T12", fname, "delta: edits transform the cached array into the new array", ed.Pos(),
-					"edits = diff(cached data, newly encoded data)", "the delta is not computed from (cached data, newly encoded data)")
+			}
+			collect(f, nil)
+			helperCalls := findCalls(f, func(cal *ssa.Function) bool {
+				return inModule(cal) && cal.Blocks != nil && cal.Signature.Results().Len() == 1 && typeHasSuffix(cal.Signature.Results().At(0).Type(), "protocol.SemanticTokensEdit")
+			})
+			for _, hc := range helperCalls {
+				collect(hc.Common().StaticCallee(), hc)
+			}
+			bind := func(v ssa.Value, hc []*ssa.Call) map[ssa.Value]bool {
+				// slice of v; parameters of a helper are continued in the arguments of its call
+				sl := backSlice(v)
+				for w := range sl {
+					if p, ok := w.(*ssa.Parameter); ok {
+						for _, call := range hc {
+							if cal := call.Common().StaticCallee(); cal == p.Parent() {
+								for i, q := range cal.Params {
+									if q == p && i < len(call.Common().Args) {
+										for z := range backSlice(call.Common().Args[i]) {
+											sl[z] = true
+										}
+									}
+								}
+							}
+						}
+					}
+				}
+				return sl
+			}
+			isCachedData := func(v ssa.Value) bool {
+				// a read of the []uint32 field of the cache entry
+				var ft types.Type
+				var bt types.Type
+				switch x := v.(type) {
+				case *ssa.FieldAddr:
+					bt = x.X.Type().Underlying().(*types.Pointer).Elem()
+					ft = bt.Underlying().(*types.Struct).Field(x.Field).Type()
+				case *ssa.Field:
+					bt = x.X.Type()
+					ft = bt.Underlying().(*types.Struct).Field(x.Field).Type()
+				default:
+					return false
+				}
+				return types.TypeString(ft, nil) == "[]uint32" && strings.Contains(types.TypeString(bt, nil), modPath)
+			}
+			c.check(len(ecs) >= 1, "T12", fname, "delta: edits are computed", f.Pos(), fmt.Sprintf("%d edit construction(s)", len(ecs)), "the delta handler builds no edit")
+			for i, ec := range ecs {
+				desc := "delta: edits transform the cached array into the new array"
+				if i > 0 {
+					desc += fmt.Sprintf(" #%d", i+1)
+				}
+				dataSl := bind(ec.vals[".Data"], helperCalls)
+				newOK := dataSl[ssa.Value(enc)]
+				oldOK := false
+				for _, k := range []string{".DeleteCount", ".Start", ".Data"} {
+					if v := ec.vals[k]; v != nil {
+						for w := range bind(v, helperCalls) {
+							if isCachedData(w) {
+								oldOK = true
+							}
+						}
+					}
+				}
+				c.check(newOK && oldOK, "T12", fname, desc, ec.pos,
+					"the edit's data comes from the newly encoded array and its extent from the cached array", "the delta is not computed from (cached data, newly encoded data)")
+				// whole-array replacement: Start 0 and Data = the new array require DeleteCount = len(cached data)
+				if k, ok := stripConv(ec.vals[".Start"]).(*ssa.Const); ok && k.Value != nil && k.Value.ExactString() == "0" {
+					if stripConv(ec.vals[".Data"]) == ssa.Value(enc) || func() bool { _, isP := stripConv(ec.vals[".Data"]).(*ssa.Parameter); return isP }() {
+						whole := false
+						if lc, ok := stripConv(ec.vals[".DeleteCount"]).(*ssa.Call); ok {
+							if bi, ok := lc.Call.Value.(*ssa.Builtin); ok && bi.Name() == "len" {
+								for w := range bind(lc.Call.Args[0], helperCalls) {
+									if isCachedData(w) {
+										whole = true
+									}
+								}
+							}
+						}
+						c.check(whole, "T12", fname, "delta: a whole-array replacement deletes exactly the cached array", ec.pos,
+							"Start 0, DeleteCount len(cached data), Data = new array", "an edit that starts at 0 and carries the whole new array does not delete exactly len(cached data) elements")
+					}
+				}
 				// guarded by result-id equality
 				idCmp := false
-				for _, cond := range controlConds(ed.Block()) {
-					sl := backSlice(cond)
-					hasPrev, hasCached := false, false
-					for v := range sl {
-						if fieldAddrNamed(v, "PreviousResultID") {
-							hasPrev = true
+				for _, b := range ec.blks {
+					for _, cond := range controlConds(b) {
+						hasPrev, hasCached := false, false
+						for v := range backSlice(cond) {
+							var bt, ft types.Type
+							switch x := v.(type) {
+							case *ssa.FieldAddr:
+								bt = x.X.Type().Underlying().(*types.Pointer).Elem()
+								ft = bt.Underlying().(*types.Struct).Field(x.Field).Type()
+							case *ssa.Field:
+								bt = x.X.Type()
+								ft = bt.Underlying().(*types.Struct).Field(x.Field).Type()
+							default:
+								continue
+							}
+							if types.TypeString(ft, nil) != "string" {
+								continue
+							}
+							if typeHasSuffix(bt, "protocol.SemanticTokensDeltaParams") {
+								hasPrev = true
+							} else if strings.Contains(types.TypeString(bt, nil), modPath) {
+								hasCached = true
+							}
 						}
-						if fieldAddrNamed(v, "resultID") {
-							hasCached = true
+						if hasPrev && hasCached {
+							idCmp = true
 						}
-					}
-					if hasPrev && hasCached {
-						idCmp = true
 					}
 				}
-				c.check(idCmp, "T12", fname, "delta: only against the result the client names", ed.Pos(),
+				c.check(idCmp, "T12", fname, "delta: only against the result the client names", ec.pos,
 					"a delta is only sent when the cached result id equals the client's previousResultId", "a delta is computed without comparing the cached result id with the client's previousResultId: stale or unknown ids get edits against the wrong base")
 			}
 		}
